@@ -96,10 +96,16 @@ pub fn run(ctx: &Ctx) -> i32 {
         ("a2_1", FriReductionStrategy::Fixed(vec![2, 1])),
         ("a1_2", FriReductionStrategy::Fixed(vec![1, 2])),
         ("a3", FriReductionStrategy::Fixed(vec![3])),
+        // three reductions with unequal arities: the inferred element of step 2 depends on the
+        // evaluation point being advanced by the arity of the step that was folded
+        ("a2_1_1", FriReductionStrategy::Fixed(vec![2, 1, 1])),
+        ("a1_2_1", FriReductionStrategy::Fixed(vec![1, 2, 1])),
+        ("a1_1_2", FriReductionStrategy::Fixed(vec![1, 1, 2])),
+        ("a3_2_1", FriReductionStrategy::Fixed(vec![3, 2, 1])),
     ];
     let caps: Vec<usize> = if thorough { vec![0, 1, 2] } else { vec![0, 2] };
     let queries: Vec<usize> = if thorough { vec![1, 2, 3, 4] } else { vec![2, 3] };
-    let witnesses: u64 = if thorough { 4000 } else { 260 };
+    let witnesses: u64 = if thorough { 4000 } else { 180 };
     let mut jobs: Vec<(usize, usize, usize, usize)> = Vec::new(); // prog, schedule, cap, queries
     for pi in [0usize, 2] {
         for si in 0..schedules.len() {
@@ -133,6 +139,12 @@ pub fn run(ctx: &Ctx) -> i32 {
         };
         let lde_bits = built.data.common.degree_bits() + cfg.fri_config.rate_bits;
         let arities = built.data.common.fri_params.reduction_arity_bits.clone();
+        // a Fixed schedule folding further than the degree leaves no final polynomial at all
+        // (final_poly_bits would be negative): inadmissible for this circuit size
+        if arities.iter().sum::<usize>() > built.data.common.degree_bits() {
+            ctx.class(format!("inadmissible:{}:folds-below-degree", schedules[si].0));
+            return;
+        }
         ctx.state(1);
         for w in 0..witnesses {
             let case = format!("{tag} pow_witness={w}");
